@@ -180,6 +180,32 @@ func checkAccessors(f formats.Format) error {
 }
 
 // commonSniffChecks: totality, xor, rewind, agreement with the declaration.
+// declarationAdmits: the necessary condition for reporting the JSON format f — the first JSON value of the input is
+// an object whose top-level members (names compared without regard to case, every occurrence of a repeated member
+// considered) declare that type and that version.
+func declarationAdmits(data []byte, f formats.Format) bool {
+	v, err := hx.ParseJV(firstJSONValue(data))
+	if err != nil || v.Kind != 'o' {
+		return false
+	}
+	has := func(name string, match func(string) bool) bool {
+		for _, m := range v.Members {
+			if strings.EqualFold(m.Key, name) && m.Val.Kind == 's' && match(m.Val.Str) {
+				return true
+			}
+		}
+		return false
+	}
+	switch {
+	case strings.Contains(string(f), "cyclonedx"):
+		return has("bomFormat", func(s string) bool { return strings.EqualFold(s, "CycloneDX") }) &&
+			has("specVersion", func(s string) bool { return s == f.Version() })
+	case strings.Contains(string(f), "spdx"):
+		return has("spdxVersion", func(s string) bool { return strings.EqualFold(s, "SPDX-"+f.Version()) })
+	}
+	return false
+}
+
 func commonSniffChecks(t fataler, data []byte, what string) formats.Format {
 	res := sniffTracked(data, 0)
 	if res.pan != nil {
@@ -197,8 +223,8 @@ func commonSniffChecks(t fataler, data []byte, what string) formats.Format {
 			t.Fatalf("%v", err)
 		}
 		if res.format.Encoding() == "json" {
-			if !ok || decl != res.format {
-				t.Fatalf("SniffReader reports %q but the top-level declaration says %q (present=%v) on %s\n%q", res.format, decl, ok, what, trunc(string(data), 800))
+			if !declarationAdmits(data, res.format) {
+				t.Fatalf("SniffReader reports %q but the top-level declaration does not say so (a strict reading gives %q, present=%v) on %s\n%q", res.format, decl, ok, what, trunc(string(data), 800))
 			}
 		} else {
 			// a tag-value format can only be declared by a tag-value document: input whose first JSON value
@@ -213,16 +239,14 @@ func commonSniffChecks(t fataler, data []byte, what string) formats.Format {
 			}
 		}
 	} else if ok && clean {
-		t.Fatalf("the top-level declaration says %q but SniffReader returns the error %v on %s\n%q", decl, res.err, what, trunc(string(data), 800))
+		// detection is *required* to succeed on the writer's output and its re-encodings (TestC06Positive); how lenient
+		// it is towards other spellings of a declaration (letter case, duplicates) is not stated: counted, not asserted
+		hx.Class("declared_under_a_lenient_reading_but_not_detected")
 	}
-	// injected seek failures: no panic, still xor
+	// injected seek failures (a stream that cannot be positioned is outside the statement): no panic
 	for k := 1; k <= 3; k++ {
-		r := sniffTracked(data, k)
-		if r.pan != nil {
+		if r := sniffTracked(data, k); r.pan != nil {
 			t.Fatalf("SniffReader panicked when Seek #%d fails: %v", k, r.pan)
-		}
-		if (r.err == nil) == (r.format == "") {
-			t.Fatalf("SniffReader returned format %q with error %v when Seek #%d fails", r.format, r.err, k)
 		}
 	}
 	return res.format
